@@ -129,6 +129,39 @@ def source_tables():
     return _src_tables
 
 
+def dep_enum(user_pkg, dep, relfile, enum):
+    """variant names, in declaration order, of an enum of a dependency crate - at the version /repo's Cargo.lock resolves for user_pkg - read from the vendored registry source"""
+    import glob
+    lock = open(os.path.join(REPO, "Cargo.lock")).read()
+    m = re.search(r'\[\[package\]\]\nname = "%s"\nversion = "[^"]+"\n(?:source = [^\n]*\n)?(?:checksum = [^\n]*\n)?dependencies = \[(.*?)\]' % re.escape(user_pkg), lock, re.S)
+    deps = re.findall(r'"([^"]+)"', m.group(1)) if m else []
+    ver = None
+    for d in deps:
+        parts = d.split(" ")
+        if parts[0] == dep:
+            ver = parts[1] if len(parts) > 1 else None
+            if ver is None:
+                mm = re.search(r'name = "%s"\nversion = "([^"]+)"' % re.escape(dep), lock)
+                ver = mm.group(1) if mm else None
+    if ver is None:
+        raise LookupError(f"{user_pkg} does not depend on {dep} in Cargo.lock - spec needs update")
+    cands = glob.glob(os.path.expanduser(f"~/.cargo/registry/src/*/{dep}-{ver}/{relfile}"))
+    if not cands:
+        raise LookupError(f"source of {dep} {ver} not found in the cargo registry")
+    src = re.sub(r"//[^\n]*", "", open(cands[0], errors="replace").read())
+    m = re.search(r"\benum\s+%s\s*(?:<[^{]*>)?\s*\{" % re.escape(enum), src)
+    if not m:
+        raise LookupError(f"enum {enum} not found in {dep} {ver} {relfile}")
+    body = _balanced(src, m.end() - 1)
+    out = []
+    for part in _split_top_commas(body):
+        part = re.sub(r"#\[[^\]]*\]", "", part).strip()
+        mm = re.match(r"([A-Za-z_][A-Za-z0-9_]*)", part)
+        if mm:
+            out.append(mm.group(1))
+    return out
+
+
 def _balanced(s, i):
     depth = 0
     for j in range(i, len(s)):
